@@ -362,3 +362,145 @@ Proof.
   - destruct (B2 _ _ _ O1 I1).
   - destruct (B1 _ _ _ O2 I2).
 Qed.
+
+(* ================================================================== YYYY-MM-DD, white space around it *)
+Lemma is_ws_digit v : is_ws (digit v) = false.
+Proof. pose proof (digit_range v). unfold is_ws. lia. Qed.
+
+Lemma fmt_ymd_cons y m d :
+  fmt_ymd y m d = [digit (y / 1000); digit (y / 100); digit (y / 10); digit y; 45;
+                   digit (m / 10); digit m; 45; digit (d / 10); digit d].
+Proof. reflexivity. Qed.
+
+Lemma fmt_ymd_core y m d : core_ok is_ws (fmt_ymd y m d).
+Proof.
+  right. rewrite fmt_ymd_cons. split.
+  - eexists. eexists. split; [reflexivity|]. apply is_ws_digit.
+  - exists [digit (y / 1000); digit (y / 100); digit (y / 10); digit y; 45; digit (m / 10); digit m; 45; digit (d / 10)],
+      (digit d). split; [reflexivity|]. apply is_ws_digit.
+Qed.
+
+Lemma strip_padded w1 w2 y m d : all_ws w1 = true -> all_ws w2 = true ->
+  strip (w1 ++ fmt_ymd y m d ++ w2) = fmt_ymd y m d.
+Proof. intros H1 H2. rewrite strip_trimw. apply trimw_of; [exact H1|exact H2|apply fmt_ymd_core]. Qed.
+
+Lemma strip_blank w : all_ws w = true -> strip w = [].
+Proof.
+  intros H. rewrite strip_trimw. pose proof (trimw_of is_ws w [] [] H eq_refl (or_introl eq_refl)) as P.
+  cbn [app] in P. rewrite app_nil_r in P. exact P.
+Qed.
+
+Lemma fmt_ymd_in_texts y m d : In (fmt_ymd y m d) (date_texts y m d).
+Proof.
+  apply in_date_texts. exists (d2 m), (d2 d). split; [left; reflexivity|]. split; [left; reflexivity|]. reflexivity.
+Qed.
+
+(* a valid civil date printed as YYYY-MM-DD (white space around it is dropped) is stored as the UTC
+   midnight of that date, the day string is the 10 bytes of the date, the flag is set *)
+Theorem date_canonical_proof w1 w2 y m d : all_ws w1 = true -> all_ws w2 = true -> date_ok y m d = true ->
+  date_row (w1 ++ fmt_ymd y m d ++ w2) = Ok (midnight_us y m d, fmt_ymd y m d, 1).
+Proof.
+  intros H1 H2 Hok. unfold date_row. rewrite strip_padded by assumption.
+  destruct (date_ok_ranges _ _ _ Hok) as [Ry [Rm Rd]].
+  rewrite (strptime_texts y m d _ Ry Rm Rd (fmt_ymd_in_texts y m d)).
+  rewrite fmt_ymd_cons at 1. cbn [bind]. rewrite datetime_us_date, Hok. cbn [bind]. reflexivity.
+Qed.
+
+Theorem date_blank_proof w : all_ws w = true -> date_row w = Ok (0, zeros 10, 0).
+Proof. intros H. unfold date_row. rewrite strip_blank by exact H. reflexivity. Qed.
+
+Lemma dcell_row x : dcell_ok x = true -> date_row (dcell_text x) = Ok (dcell_store x).
+Proof.
+  destruct x as [w|w1 y m d w2]; cbn [dcell_ok dcell_text dcell_store]; intros H.
+  - apply date_blank_proof. exact H.
+  - apply andb_prop in H. destruct H as [H H2]. apply andb_prop in H. destruct H as [H1 Hok].
+    apply date_canonical_proof; assumption.
+Qed.
+
+(* the whole column, any chunking, any buffer layout *)
+Theorem date_column_roundtrip_proof (dd:list (list dcell)) off slack tail : 0 <= off ->
+  forallb dcell_ok (concat dd) = true ->
+  date_import (map (mk_chunk off slack tail) (map (map dcell_text) dd))
+  = Ok (dt_cols (map dcell_store (concat dd))).
+Proof.
+  intros Ho Hok. rewrite date_chunk_independent_proof by exact Ho.
+  rewrite <- concat_map. rewrite map_res_map.
+  rewrite (map_res_ok _ dcell_store).
+  - reflexivity.
+  - intros x Hx. apply dcell_row. rewrite forallb_forall in Hok. apply Hok. exact Hx.
+Qed.
+
+(* a cell that is neither blank nor a text of a valid civil date makes the import raise ValueError *)
+Lemma date_row_res cell : (exists r, date_row cell = Ok r) \/ date_row cell = Raise E_ValueError.
+Proof.
+  destruct (date_cell_table_proof cell); [left; eexists; reflexivity|left; eexists; reflexivity|right; reflexivity].
+Qed.
+
+Lemma map_res_raise {A B} (f:A -> res B) e l x :
+  (forall y, In y l -> (exists r, f y = Ok r) \/ f y = Raise e) -> In x l -> f x = Raise e ->
+  map_res f l = Raise e.
+Proof.
+  induction l as [|h l IH]; intros Hall Hin Hx; [destruct Hin|]. cbn [map_res].
+  destruct (Hall h (or_introl eq_refl)) as [[r Hr]|Hr]; rewrite Hr; cbn [bind]; [|reflexivity].
+  destruct Hin as [->|Hin]; [congruence|].
+  rewrite IH; [reflexivity| |exact Hin|exact Hx]. intros y Hy. apply Hall. right. exact Hy.
+Qed.
+
+Theorem date_invalid_raises_proof cc cell off slack tail : 0 <= off ->
+  In cell (concat cc) -> strip cell <> [] ->
+  (forall y m d, date_ok y m d = true -> ~ In (strip cell) (date_texts y m d)) ->
+  date_import (map (mk_chunk off slack tail) cc) = Raise E_ValueError.
+Proof.
+  intros Ho Hin Hne Hbad. rewrite date_chunk_independent_proof by exact Ho.
+  rewrite (map_res_raise date_row E_ValueError (concat cc) cell); [reflexivity| |exact Hin|].
+  - intros y _. apply date_row_res.
+  - pose proof (date_cell_table_proof cell) as S.
+    pose proof (date_cell_spec_deterministic_proof cell _ _ S (DC_bad cell Hne Hbad)) as E. exact E.
+Qed.
+
+(* ================================================================== the calendar behind midnight_us *)
+(* consecutive civil dates have consecutive ordinals, and 1970-01-01 is day EPOCH_ORD: midnight_us y m d is
+   86400 * 10^6 times the number of days from 1970-01-01 to y-m-d *)
+Lemma days_before_year_succ y : 1 <= y ->
+  days_before_year (y + 1) = days_before_year y + (if is_leap y then 366 else 365).
+Proof.
+  intros Hy. unfold days_before_year, is_leap. replace (y + 1 - 1) with y by lia.
+  destruct ((y mod 4 =? 0) && negb (y mod 100 =? 0) || (y mod 400 =? 0)) eqn:E; lia.
+Qed.
+
+Lemma days_before_month_12 y : days_before_month_n y 12 = if is_leap y then 366 else 365.
+Proof. unfold days_before_month_n, days_in_month. cbn. destruct (is_leap y); reflexivity. Qed.
+
+Lemma ordinal_next y m d : date_ok y m d = true ->
+  let '(y', m', d') := next_day y m d in ordinal y' m' d' = ordinal y m d + 1.
+Proof.
+  intros Hok. destruct (date_ok_ranges _ _ _ Hok) as [Ry [Rm Rd]].
+  unfold date_ok in Hok. repeat (apply andb_prop in Hok; destruct Hok as [Hok ?]).
+  unfold next_day. destruct (d <? days_in_month y m) eqn:E1.
+  - unfold ordinal. lia.
+  - assert (d = days_in_month y m) by lia. destruct (m <? 12) eqn:E2.
+    + unfold ordinal. replace (Z.to_nat (m + 1 - 1)) with (S (Z.to_nat (m - 1))) by lia.
+      cbn [days_before_month_n]. replace (Z.of_nat (S (Z.to_nat (m - 1)))) with m by lia. lia.
+    + assert (m = 12) by lia. subst m. unfold ordinal.
+      replace (Z.to_nat (1 - 1)) with O by reflexivity. replace (Z.to_nat (12 - 1)) with 11%nat by reflexivity.
+      rewrite days_before_year_succ by lia.
+      pose proof (days_before_month_12 y) as P. cbn [days_before_month_n] in P |- *.
+      replace (Z.of_nat 12) with 12 in P by reflexivity. lia.
+Qed.
+
+Theorem midnight_next_day_proof y m d : date_ok y m d = true ->
+  let '(y', m', d') := next_day y m d in midnight_us y' m' d' = midnight_us y m d + 86400 * 1000000.
+Proof.
+  intros Hok. pose proof (ordinal_next y m d Hok) as P. destruct (next_day y m d) as [[y' m'] d'].
+  unfold midnight_us, instant_us. cbn [cy cmo cd chh cmi css]. rewrite P. lia.
+Qed.
+
+Lemma midnight_epoch : midnight_us 1970 1 1 = 0.
+Proof. reflexivity. Qed.
+
+(* the hypotheses of date_invalid_raises, from a computed run of the model *)
+Lemma date_bad_of_run cell : date_row cell = Raise E_ValueError ->
+  strip cell <> [] /\ forall y m d, date_ok y m d = true -> ~ In (strip cell) (date_texts y m d).
+Proof.
+  intros H. pose proof (date_cell_table_proof cell) as S. rewrite H in S. inversion S. split; assumption.
+Qed.
